@@ -482,15 +482,27 @@ func checkCalendar(c Case) error {
 
 	// ---- time(timeformat(t)) round trips --------------------------------
 	zl := zones()
-	for i, f := range roundTripFormats {
-		if c.Inline && i != int(c.Spell>>16)%len(roundTripFormats) {
+	// the formats: the fixed ones and every further name that the documentation
+	// of the tree under test lists and that, by what rare prints with it, holds
+	// date, time and numeric offset (docformats_test.go)
+	rts := roundTripSet()
+	for i, rf := range rts {
+		f := rf.name
+		if c.Inline && i != int(c.Spell>>16)%len(rts) {
 			continue
 		}
-		if f == "RFC822Z" && (cv.Year < 1969 || cv.Year > 2068) {
+		if rf.yy && (cv.Year < 1969 || cv.Year > 2068) {
 			// a two-digit year cannot say which century; the reading of
 			// 69..99 / 00..68 is Go's convention, not documented by rare
-			pbt.Exclude("rfc822z-two-digit-year-outside-1969..2068")
+			if f == "RFC822Z" {
+				pbt.Exclude("rfc822z-two-digit-year-outside-1969..2068")
+			} else {
+				pbt.Exclude("doc-format-two-digit-year-outside-1969..2068:" + f)
+			}
 			continue
+		}
+		if rf.fromDocs {
+			c.Obs.Label(true, "round-trip-format-from-docs:"+f)
 		}
 		// tz handed to {time}: the same zone, omitted, or another zone. The
 		// offset is explicit in the text, so the instant may not depend on it.
@@ -510,7 +522,7 @@ func checkCalendar(c Case) error {
 			return err
 		}
 		want := c.Unix
-		if f == "RFC822Z" {
+		if rf.minute {
 			want -= want % 60 // the format carries minutes
 		}
 		if got != strconv.FormatInt(want, 10) {
@@ -659,7 +671,7 @@ const calendarRule = "unix second in [1970-01-01, 2100-12-31] x zone in {omitted
 	"instants: uniform, or within {0,±1,±2 s, ±1 min, ±30 min, ±1 h, ±1 d} of a local month / quarter / year / ISO-week boundary, any local midnight, or a zone transition. " +
 	"Oracle: own civil-time model (days since epoch -> y/m/d, weekday, ISO week and week-year, quarter=ceil(month/3)) applied to unix+offset, only the offset/abbreviation taken from Go's tz database: " +
 	"timeformat for the 12 documented part formats and the 10 named formats, timeattr weekday/week/yearweek/quarter, buckettime for all 7 buckets (via rare's and via the model's RFC3339 text), " +
-	"time(timeformat(t,F,tz),F,tz')==t for RUBY RFC1123Z RFC3339 RFC3339N NGINX (to the minute for RFC822Z) and for zone-less ANSIC away from transitions. " +
+	"time(timeformat(t,F,tz),F,tz')==t for RUBY RFC1123Z RFC3339 RFC3339N NGINX (to the minute for RFC822Z), for every further format name the tree's documentation lists that prints date, time and numeric offset (probed through rare), and for zone-less ANSIC away from transitions. " +
 	"Non-trivial: non-UTC zone and local time within a day of a month/quarter/year/ISO-week boundary or of a zone transition; distinct by case JSON"
 
 var calendarSpec = pbt.Spec[Case]{
@@ -668,7 +680,11 @@ var calendarSpec = pbt.Spec[Case]{
 	Gen:    genCalendar, Check: checkCalendar, Classify: classifyCalendar,
 }
 
-func TestCalendar(t *testing.T) { pbt.Run(t, calendarSpec) }
+func TestCalendar(t *testing.T) {
+	sp := calendarSpec
+	sp.Rule += docFormatsRule()
+	pbt.Run(t, sp)
+}
 
 // TestSweep: bounded-exhaustive part. For every zone: both sides (last
 // second / first second) of every month boundary 1970-2100 and of every zone
@@ -681,7 +697,7 @@ func TestSweep(t *testing.T) {
 		what = "every local day boundary 1970-2101"
 	}
 	sp.Rule = "bounded-exhaustive: " + what + " and every zone transition 1968-2102 clipped to the domain, instants boundary-1s and boundary, in each of {omitted, utc, " +
-		strconv.Itoa(len(zones())) + " IANA zones}; same oracle as calendar; non-trivial: non-UTC zone (every case is at a boundary)"
+		strconv.Itoa(len(zones())) + " IANA zones}; same oracle as calendar; non-trivial: non-UTC zone (every case is at a boundary)" + docFormatsRule()
 	sp.Classify = func(c Case) (bool, []string) {
 		_, labels := classifyCalendar(c)
 		return c.Zone != "" && c.Zone != "utc", labels
